@@ -31,11 +31,20 @@
     C09_unresolved_real           the no-namespace id and the XML namespace are never reported
     C09_stack_invariant           FullnameSerializer: top frame = nearest-declaration bindings of the
                                   frames pushed (unique prefixes per element)
+    C09_unresolved                ONE path-indexed iff over the whole subtree: ns is reported iff some
+                                  element e of the subtree has a name in ns that the declarations on the
+                                  way from the node to e (inclusive, EMPTY frame below) give no usable prefix
+    C09_unresolved_unique_needed  closed witness: with a prefix declared twice on one element the iff fails
+    C09_inherited                 inherited_prefixes = ALL bindings in scope at the parent (default prefix
+                                  included, every prefix of a namespace) whose namespace is reported
+                                  unresolved; each prefix once
+    C09_inherited_iff             … = bindings of the parent's scope that some name of the subtree needs
 -/
 import XotModel.Lemmas.Scope
 import XotModel.Lemmas.ScopeStack
 import XotModel.Lemmas.ScopeWalk
 import XotModel.Lemmas.ScopeSerialise
+import XotModel.Lemmas.ScopeUnres
 
 namespace XotModel.Props
 open XotModel
@@ -360,6 +369,105 @@ theorem C09_stack_invariant (s : FStack) (frames : List (List (Nat × Nat))) (de
     FrameInv (s.push decls).top (decls :: frames) ∧ (s.push decls).pop (!decls.isEmpty) = s :=
   ⟨h.push decls hd, FStack.pop_push s decls⟩
 
+/-! ### `unresolved_namespaces` and `inherited_prefixes` over the whole subtree -/
+
+/-- `unresolved_namespaces(node)`, one statement for the whole subtree.  The result is a list in
+    document order WITH repetitions (one entry per name that cannot be written; the code does not
+    deduplicate), so the statement is about membership: `ns` is reported iff there is an element
+    `e` (at raw path `q` below `node`, `chain` = the nodes from `e` up to `node`) with
+    `NeedsNs … e ns`: `ns` is real and not the XML namespace, and either `e`'s element name is in
+    `ns` and NO prefix is bound to `ns`, or one of `e`'s attribute names is in `ns` and no
+    NON-EMPTY prefix is bound to `ns` — bindings read by the nearest-declaration rule `scopeOf`
+    over the declarations of the elements of `chain` only (`elementFrames chain`, innermost first):
+    the name stack starts from an EMPTY frame, nothing above `node` counts.
+    Hypothesis: no element of the subtree declares a prefix twice. -/
+theorem C09_unresolved (env : Env) (t : Tree) (path : Path) (sub : Tree) (l : List Nat)
+    (hs : t.at? path = some sub) (hu : UniqueDeclsBelow sub)
+    (h : unresolvedNamespaces env t path = some l) (ns : Nat) :
+    ns ∈ l ↔ ∃ q chain e, sub.ancestorsOrSelf q = some chain ∧ sub.at? q = some e ∧
+      NeedsNs env (scopeOf (elementFrames chain)) e ns := by
+  simp only [unresolvedNamespaces, hs, Option.map_some, Option.some.injEq] at h
+  subst h
+  rw [mem_unresolvedNamespacesSub env sub hu ns]
+  simp [UnresolvedIn]
+
+/-- `NeedsNs` spelled out. -/
+theorem C09_unresolved_needs (env : Env) (sc : Nat → Option Nat) (e : Tree) (ns : Nat) :
+    NeedsNs env sc e ns ↔
+      ∃ name, e.value = .element name ∧ ns ≠ Env.noNamespace ∧ ns ≠ Env.xmlNamespace ∧
+        ((env.nsOfName name = ns ∧ ∀ p, sc p ≠ some ns) ∨
+         (∃ a ∈ e.attrs.map (·.1), env.nsOfName a = ns ∧
+            ∀ p, p ≠ Env.emptyPrefix → sc p ≠ some ns)) := Iff.rfl
+
+/-- The hypothesis of `C09_unresolved` is needed: `<a xmlns:p="A" xmlns:p="B"/>` with `a` in `B`
+    (a state the namespace map of the API cannot produce). `FullnameInfo::new` keeps both entries,
+    so `B` counts as bound, while a lookup of `p` gives `A`. -/
+theorem C09_unresolved_unique_needed :
+    ¬ ∀ (env : Env) (sub : Tree) (ns : Nat), ns ∈ unresolvedNamespacesSub env sub ↔ UnresolvedIn env [] sub ns := by
+  intro h
+  have h1 := (h { namespaces := [], prefixes := [], names := [(['a'], 3)] }
+    (.node (.element 0) [.node (.namespace 2 2) [], .node (.namespace 2 3) []]) 3).2
+    ⟨[], _, _, rfl, rfl, 0, rfl, by decide, by decide, .inl ⟨by decide, by
+      intro p
+      have hd : (Tree.node (.element 0) [.node (.namespace 2 2) [], .node (.namespace 2 3) []]).nsDecls =
+          [(2, 2), (2, 3)] := by decide
+      simp only [elementFrames, Tree.value, Value.isElement, List.filter_cons_of_pos, List.filter_nil,
+        List.map_cons, List.map_nil, List.append_nil, scopeOf, hd]
+      by_cases hp : p = 2
+      · subst hp; decide
+      · have : (p == 2) = false := by simpa using hp
+        simp [List.lookup, this]⟩⟩
+  revert h1
+  decide
+
+/-- `inherited_prefixes(node)`, exactly: the pairs `(p, ns)` such that `p` is bound to `ns` in the
+    PARENT's scope (`scopeSpec`, so never `xmlns=""`, and including the `xml` binding in
+    principle — but see `C09_unresolved_real`: the XML namespace is never reported) and `ns` is
+    among `unresolved_namespaces(node)`.  Nothing is selected per namespace: if several prefixes
+    are bound to a needed namespace ALL of them are inherited, and the default prefix is inherited
+    like any other (also when the only name needing `ns` is an attribute name, which the default
+    prefix cannot serve).  Each prefix occurs once; a root (no parent) inherits nothing. -/
+theorem C09_inherited (env : Env) (t : Tree) (path : Path) (l : List (Nat × Nat))
+    (h : inheritedPrefixes env t path = some l) :
+    (∀ p ns, (p, ns) ∈ l ↔
+      path ≠ [] ∧ scopeSpec t path.dropLast p = some ns ∧
+        ∃ u, unresolvedNamespaces env t path = some u ∧ ns ∈ u) ∧
+    (l.map Prod.fst).Nodup := by
+  unfold inheritedPrefixes at h
+  cases hs : t.at? path with
+  | none => simp [hs] at h
+  | some sub =>
+    simp only [hs, Option.some.injEq] at h
+    subst h
+    simp only [unresolvedNamespaces, hs, Option.map_some, Option.some.injEq, exists_eq_left']
+    cases path with
+    | nil => simp
+    | cons i rest =>
+      simp only [List.isEmpty_cons, Bool.false_eq_true, ↓reduceIte, ne_eq, reduceCtorEq,
+        not_false_eq_true, true_and, List.mem_filter, List.contains_eq_mem, decide_eq_true_eq]
+      cases hn : namespacesInScope t (i :: rest).dropLast with
+      | none =>
+        have : t.ancestorsOrSelf (i :: rest).dropLast = none := by
+          simpa [namespacesInScope] using hn
+        simp [scopeSpec, this]
+      | some l' =>
+        obtain ⟨hmem, hnd, _, _⟩ := C09_in_scope t _ l' hn
+        simp only [Option.getD_some]
+        refine ⟨fun p ns => by rw [hmem], ?_⟩
+        exact (List.filter_sublist.map Prod.fst).nodup hnd
+
+/-- "A binding is inherited iff some name in the subtree needs it": with `C09_unresolved`. -/
+theorem C09_inherited_iff (env : Env) (t : Tree) (path : Path) (sub : Tree) (l : List (Nat × Nat))
+    (hs : t.at? path = some sub) (hu : UniqueDeclsBelow sub)
+    (h : inheritedPrefixes env t path = some l) (p ns : Nat) :
+    (p, ns) ∈ l ↔
+      path ≠ [] ∧ scopeSpec t path.dropLast p = some ns ∧
+        ∃ q chain e, sub.ancestorsOrSelf q = some chain ∧ sub.at? q = some e ∧
+          NeedsNs env (scopeOf (elementFrames chain)) e ns := by
+  rw [(C09_inherited env t path l h).1 p ns]
+  simp only [unresolvedNamespaces, hs, Option.map_some, Option.some.injEq, exists_eq_left']
+  rw [C09_unresolved env t path sub _ hs hu (by simp [unresolvedNamespaces, hs]) ns]
+
 /-! ### Non-vacuity -/
 
 /-- `<a xmlns:p="A" xmlns:q="B"><b xmlns:p="C"/></a>` at `b`, namespace `B`: found past the
@@ -380,5 +488,20 @@ example : NoPrefixToEmptyUri [.node (.element 2) [.node (.namespace 0 0) [], .no
   rintro (⟨rfl, rfl⟩ | ⟨rfl, rfl⟩)
   · rfl
   · simp [Env.noNamespace] at hn
+
+/-- `<a xmlns:p="A"><b B:x=""/></a>` (b in A, x in B): unique declarations; `B` is reported for the
+    whole tree, `A` only for `b` alone, and `b` inherits exactly `p ↦ A`. -/
+def c09UnresTree : Tree :=
+  .node (.element 0) [.node (.namespace 2 2) [], .node (.element 0) [.node (.attribute 1 []) []]]
+def c09UnresEnv : Env := { namespaces := [], prefixes := [], names := [(['a'], 2), (['x'], 3)] }
+
+example : UniqueDeclsBelow c09UnresTree := uniqueDeclsB_sound _ (by decide)
+example : unresolvedNamespaces c09UnresEnv c09UnresTree [] = some [3] := by decide
+example : unresolvedNamespaces c09UnresEnv c09UnresTree [1] = some [2, 3] := by decide
+example : inheritedPrefixes c09UnresEnv c09UnresTree [1] = some [(2, 2)] := by decide
+
+/-- Two prefixes and the default bound to the needed namespace: all three are inherited. -/
+example : inheritedPrefixes c09UnresEnv (.node (.element 5) [.node (.namespace 2 2) [], .node (.namespace 3 2) [],
+    .node (.namespace 0 2) [], .node (.element 0) []]) [3] = some [(2, 2), (3, 2), (0, 2)] := by decide
 
 end XotModel.Props
